@@ -17,7 +17,7 @@ Local Open Scope Z_scope.
 Definition isv (k : vkey) : bool := match k with KVal _ _ _ => true | _ => false end.
 
 Definition permitted (u : universe) (fin : option flt) (k : vkey) : Prop :=
-  match k with KVal _ t _ | KArg t _ => fin_ok u fin t = true | _ => False end.
+  match k with KVal n t s => fin_ok u fin n t s = true | KArg t s => fin_ok u fin EmptyString t s = true | _ => False end.
 
 (* what the proof of success needs from a call graph *)
 Record SG (u : universe) (fin : option flt) (f : fdecl) (g : rgraph) : Prop := {
@@ -47,9 +47,9 @@ Lemma step_redefine_steps known af u fin g : gsteps known af g (step_redefine u 
 Proof.
   unfold step_redefine. apply gsteps_fold. intros g0 k _.
   destruct k as [|ft|n t s|t s|t s]; cbv beta iota zeta; try apply gss_refl.
-  - destruct (match fin with Some f => flt_ok u f t | None => true end); [|apply gss_refl].
+  - destruct (match fin with Some f => flt_okv u f n t s | None => true end); [|apply gss_refl].
     apply gsteps_one. apply gs_e; [reflexivity|apply wt_normal].
-  - destruct (match fin with Some f => flt_ok u f t | None => true end); [|apply gss_refl].
+  - destruct (match fin with Some f => flt_okv u f EmptyString t s | None => true end); [|apply gss_refl].
     apply gsteps_one. apply gs_e; [reflexivity|apply wt_normal].
 Qed.
 
@@ -66,10 +66,10 @@ Proof.
   - split; [exact W|reflexivity].
   - intros a x [Wa Va].
     destruct x as [|ft|n t s|t s|t s]; cbv beta iota zeta; try (split; assumption).
-    + destruct (match fin with Some f => flt_ok u f t | None => true end); [|split; assumption].
+    + destruct (match fin with Some f => flt_okv u f n t s | None => true end); [|split; assumption].
       destruct (add_e_spec (KVal n t s) KRoot w_normal Wa) as (W' & Hv & _).
       split; [exact W'|]. intros y. rewrite Hv. apply Va.
-    + destruct (match fin with Some f => flt_ok u f t | None => true end); [|split; assumption].
+    + destruct (match fin with Some f => flt_okv u f EmptyString t s | None => true end); [|split; assumption].
       destruct (add_e_spec (KArg t s) KRoot w_normal Wa) as (W' & Hv & _).
       split; [exact W'|]. intros y. rewrite Hv. apply Va.
   - intros a x [Wa Va] Vx Px.
@@ -83,11 +83,11 @@ Proof.
       rewrite He, Pa, Pr, !Base.eqb_refl. reflexivity.
   - intros a x y [Wa Va] Qy Vy Py. specialize (Qy Vy Py).
     destruct x as [|ft|n t s|t s|t s]; cbv beta iota zeta; try exact Qy.
-    + destruct (match fin with Some f => flt_ok u f t | None => true end); [|exact Qy].
+    + destruct (match fin with Some f => flt_okv u f n t s | None => true end); [|exact Qy].
       destruct (add_e_spec (KVal n t s) KRoot w_normal Wa) as (_ & _ & He).
       rewrite He. destruct (present a (KVal n t s) && present a KRoot && Base.eqb y (KVal n t s) && Base.eqb KRoot KRoot);
         [reflexivity|exact Qy].
-    + destruct (match fin with Some f => flt_ok u f t | None => true end); [|exact Qy].
+    + destruct (match fin with Some f => flt_okv u f EmptyString t s | None => true end); [|exact Qy].
       destruct (add_e_spec (KArg t s) KRoot w_normal Wa) as (_ & _ & He).
       rewrite He. destruct (present a (KArg t s) && present a KRoot && Base.eqb y (KArg t s) && Base.eqb KRoot KRoot);
         [reflexivity|exact Qy].
@@ -102,10 +102,10 @@ Proof.
   - split; [exact W|reflexivity].
   - intros a y [Wa Va] _.
     destruct y as [|ft|n ty s|ty s|ty s]; cbv beta iota zeta; try (split; assumption).
-    + destruct (match fin with Some f0 => flt_ok u f0 ty | None => true end); [|split; assumption].
+    + destruct (match fin with Some f0 => flt_okv u f0 n ty s | None => true end); [|split; assumption].
       destruct (add_e_spec (KVal n ty s) KRoot w_normal Wa) as (W' & Hv & _).
       split; [exact W'|]. intros x. rewrite Hv. apply Va.
-    + destruct (match fin with Some f0 => flt_ok u f0 ty | None => true end); [|split; assumption].
+    + destruct (match fin with Some f0 => flt_okv u f0 EmptyString ty s | None => true end); [|split; assumption].
       destruct (add_e_spec (KArg ty s) KRoot w_normal Wa) as (W' & Hv & _).
       split; [exact W'|]. intros x. rewrite Hv. apply Va.
 Qed.
@@ -178,7 +178,7 @@ Section Full.
   Proof.
     intros Ik. apply in_map_iff in Ik. destruct Ik as (fld & <- & Ifld).
     unfold params_permitted in PP. rewrite forallb_forall in PP. specialize (PP fld Ifld).
-    unfold field_key. destruct (String.eqb (f_name fld) ""); exact PP.
+    unfold field_key. destruct (String.eqb_spec (f_name fld) "") as [E|E]; [rewrite E in PP|]; exact PP.
   Qed.
 
   Lemma full_target : fg_target fg = KFunc (fn_type f).
